@@ -89,3 +89,24 @@ func VfH_C20_langtable() {
 	vfAssert(NewLanguage(string(l)) == l, "table tag is not canonical")
 	vfReach("end")
 }
+
+// H-C20-script: LookupScript (bisection) equals a linear scan of ScriptRanges for every rune;
+// the bisection precondition (sorted, disjoint, Start <= End) is asserted on the table constants.
+func VfH_C20_script() {
+	for i := range ScriptRanges {
+		vfAssert(ScriptRanges[i].Start <= ScriptRanges[i].End, "script range with Start > End")
+		if i > 0 {
+			vfAssert(ScriptRanges[i-1].End < ScriptRanges[i].Start, "script ranges not sorted / overlapping")
+		}
+	}
+	r := vfRune("r")
+	got := LookupScript(r)
+	want := uint32(Unknown)
+	for _, e := range ScriptRanges {
+		want = vfIteU32(vfAnd(e.Start <= r, r <= e.End), uint32(e.Script), want)
+	}
+	vfAssert(uint32(got) == want, "LookupScript differs from a linear scan of ScriptRanges")
+	vfCover("known", got != Unknown)
+	vfCover("unknown", got == Unknown)
+	vfReach("end")
+}
